@@ -108,7 +108,7 @@ NOP_STMTS = [
     "DELETE FROM T1 WHERE ID = 1", "UPDATE T1 SET S = 'CALL' WHERE ID = 1", "COPY INTO T1 FROM @s1", "CREATE TABLE STAGE_T (ID INT)", "SELECT 'GRANT' AS X",
     "DROP TABLE T1", "INSERT INTO T1 VALUES (%s, %s)", "INSERT INTO AUDIT VALUES (%s)",
     "SELECT 'please call me' AS X", "SELECT ID AS recall FROM T1 ORDER BY ID", "  call spaced()", "SELECT 'GRANT x' AS G", "INSERT INTO T1 VALUES (9, 'STAGE')",
-    "UPDATE T1 SET S = 'AUDIT' WHERE ID = 2", "SELECT COUNT(*) FROM T1", "GRANT SELECT ON T1 TO ROLE r", "delete from T1 where id = 2", "SELECT 'delete' AS D",
+    "UPDATE T1 SET S = 'AUDIT' WHERE ID = 2", "COMMENT ON TABLE T1 IS 'CALL me'", "ALTER TABLE T1 SET COMMENT = 'GRANT'", "CALL after_comment()", "SELECT COUNT(*) FROM T1", "GRANT SELECT ON T1 TO ROLE r", "delete from T1 where id = 2", "SELECT 'delete' AS D",
 ]
 
 
@@ -264,6 +264,11 @@ def _run_nop(case: dict, env: core.Env) -> None:
             cur.execute("CREATE TABLE T1 (ID INT, S VARCHAR)")
             cur.execute("INSERT INTO T1 VALUES (1, 'one'), (2, 'two')")
             cur.execute("CREATE TABLE AUDIT (ID INT)")
+            # a table whose recorded comment has a history: a no-op'd statement must not bring an old one back
+            cur.execute("CREATE TABLE ORDERS_C (ID INT, S VARCHAR(9)) COMMENT = 'v1'")
+            cur.execute("COMMENT ON TABLE ORDERS_C IS 'v2 - deprecated'")
+            cur.execute("ALTER TABLE ORDERS_C SET COMMENT = 'v2b'")
+            cur.execute("CREATE OR REPLACE TABLE ORDERS_C (ID INT, S VARCHAR(5)) COMMENT = 'v3 of orders'")
         matched_any = False
         for s in case["stmts"]:
             params = None
